@@ -520,9 +520,29 @@ def shared_model_restored(prog):
             sets = [cs for cs in te.calls if cs.callee.name == "set" and "PartialModel" in cs.callee.key() and cs.args and strip(cs.args[0]) == ("param", p)]
             unsets = [cs for cs in te.calls if cs.callee.name == "unset" and "PartialModel" in cs.callee.key() and cs.args and strip(cs.args[0]) == ("param", p)]
             errs = []
-            for cs in sets:
+            # a restore is also `model.set(x, saved)` with `saved` the payload of a `model.get(x)` that was read before this
+            # function's own assignments (`match saved { Some(v) => set(x, v), None => unset(x) }`)
+            gets = [cs for cs in te.calls if cs.callee.name == "get" and "PartialModel" in cs.callee.key() and cs.args and
+                    strip(cs.args[0]) in (("param", p), ("deref", ("param", p)))]
+
+            def restores(cs):
+                if len(cs.args) < 3:
+                    return False
+                for g in gets:
+                    if strip(g.args[1]) == strip(cs.args[1]) and any(mir.is_call(y, "get") and y[2] == g.term[2] for y in mir.subterms(cs.args[2])):
+                        return True
+                return False
+            restore_sets = [cs for cs in sets if restores(cs)]
+            plain_sets = [cs for cs in sets if cs not in restore_sets]
+            for cs in restore_sets:
+                for g in gets:
+                    if any(cfg.can_reach(ps_.bb, g.bb) for ps_ in plain_sets):
+                        errs.append("the value put back by `set(%s, saved)` (line %d) is read by a `get` that an assignment of this "
+                                    "function can precede: it may be this node's own value, not the caller's" % (show(strip(cs.args[1]))[:30], cs.line))
+                        break
+            for cs in plain_sets:
                 x = strip(cs.args[1])
-                undo = {u.bb for u in unsets if strip(u.args[1]) == x}
+                undo = {u.bb for u in unsets if strip(u.args[1]) == x} | {r.bb for r in restore_sets if strip(r.args[1]) == x}
                 start = fn.blocks[cs.bb]["term"].get("target")
                 if start is None:
                     continue
